@@ -106,5 +106,7 @@ Definition dsl_run_step (tb : table) : nat -> world -> step -> list sres * world
   Build.run_step RCtab OCtab (denote_table tb) OC_ALWAYS.
 Definition dsl_run_msession (tb : table) : nat -> world -> list mop -> list sres * world :=
   Build.run_msession RCtab OCtab (denote_table tb) OC_ALWAYS.
+Definition dsl_run_zsession (tb : table) : nat -> world -> list mop -> list sres * world :=
+  Build.run_zsession RCtab OCtab (denote_table tb) OC_ALWAYS.
 Definition dsl_run_history (tb : table) : nat -> world -> list step -> list (list sres) * world :=
   Build.run_history RCtab OCtab (denote_table tb) OC_ALWAYS.
